@@ -405,24 +405,24 @@ func (c *Check) finish(verifDir string, findings []Finding, seed int, t0 time.Ti
 		"explanation": c.explain + " DOES NOT COVER: " + c.notCover +
 			" Every obligation is one construct of the current source tree (call site, literal, CFG exit, field, loop, SCC) decided by a named rule; " +
 			"a shape the engine does not recognise is reported as violated (undecided), never assumed safe.",
-		"packages":           len(c.P.Pkgs),
-		"build_configs":      configs,
-		"functions_analysed": len(c.funcs),
-		"functions":          fl,
-		"cfg_paths_queries":  c.paths,
-		"call_sites":         c.sites,
-		"obligations":        total,
-		"discharged":         ndis,
-		"violated":           nviol,
-		"known_findings":     nknown,
-		"evaluations":        total,
+		"packages":            len(c.P.Pkgs),
+		"build_configs":       configs,
+		"functions_analysed":  len(c.funcs),
+		"functions":           fl,
+		"cfg_paths_queries":   c.paths,
+		"call_sites":          c.sites,
+		"obligations":         total,
+		"discharged":          ndis,
+		"violated":            nviol,
+		"known_findings":      nknown,
+		"evaluations":         total,
 		"distinct_nontrivial": npath,
-		"rule":               "one obligation per construct the rules instantiate on; non-trivial = the decision needed a control-flow path, dominance, provenance or type-graph argument rather than a constant comparison; keys are rule+function+construct so they are distinct",
-		"rules":              rules,
-		"samples":            samples,
-		"exceptions_applied": c.excepts,
-		"checker_cmd":        "bin/maddyverif -repo /repo -property " + c.ID + " -tier " + c.Tier,
-		"exhaustive":         false,
+		"rule":                "one obligation per construct the rules instantiate on; non-trivial = the decision needed a control-flow path, dominance, provenance or type-graph argument rather than a constant comparison; keys are rule+function+construct so they are distinct",
+		"rules":               rules,
+		"samples":             samples,
+		"exceptions_applied":  c.excepts,
+		"checker_cmd":         "bin/maddyverif -repo /repo -property " + c.ID + " -tier " + c.Tier,
+		"exhaustive":          false,
 	}
 	ev := evidence{PropertyID: c.ID, Tier: c.Tier, Seed: seed, Level: "other", Coverage: cov,
 		Assumptions: append([]string{
